@@ -25,7 +25,24 @@ GRAMMARS = {
     "no_start": "begin: NAME\n",
     "bad_action": "start: a=NAME { a + } \n",
     "no_leader": "start: a NEWLINE\na: b 'x' | c 'x' | 'q'\nb: a 'y' | c 'y'\nc: a 'z' | b 'z'\n",
+    # generation itself would succeed, but the command line's validator rejects the grammar (unreachable alternative)
+    "validator_rejects": "start: NAME | NAME NAME\n",
 }
+
+
+def cli_validates(gram_path: str) -> bool:
+    """does the grammar pass the validation the command line performs?"""
+    from pegen.build import build_parser
+    from pegen.validator import validate_grammar, ValidationError
+    try:
+        grammar, _, _ = build_parser(gram_path)
+    except BaseException:
+        return True          # not a validation matter
+    try:
+        validate_grammar(grammar)
+        return True
+    except ValidationError:
+        return False
 
 _real_open = builtins.open
 _real_replace, _real_rename, _real_unlink, _real_remove = os.replace, os.rename, os.unlink, os.remove
@@ -242,7 +259,9 @@ def run(chk: common.Check, tier: str):
             if gtext is not None:
                 with _real_open(gpath, "w") as f:
                     f.write(gtext)
-            ref = reference_text(gpath) if gtext is not None else None
+            ref_api = reference_text(gpath) if gtext is not None else None
+            valid = cli_validates(gpath) if gtext is not None else True
+            ref = ref_api
             n = len(ref) if ref else 0
             fault_sets = [{}]
             if ref is not None:
@@ -259,6 +278,8 @@ def run(chk: common.Check, tier: str):
             if tier == "quick" and gname in ("ok_big", "ok_actions"):
                 fault_sets = fault_sets[:1] + fault_sets[1::3]
             for entry in ("api", "cli"):
+                # the command line refuses what its validator rejects: for it such a grammar is a failing generation
+                ref = None if (entry == "cli" and not valid) else ref_api
                 for old in (None, "# OLD PARSER CONTENT\n" * 3):
                     for faults in fault_sets:
                         out_path = os.path.join(sandbox, "out.py")
